@@ -49,9 +49,9 @@ fn other_key(pool: &[KeyInfo], r: &mut Rng, avoid: &[usize]) -> usize {
 /// Inject one fault of the family relevant to `prop` into a valid scenario.
 pub(crate) fn inject(prop: &str, s: &mut Scenario, r: &mut Rng, pool: &[KeyInfo]) -> Option<Fault> {
     let kinds: &[&str] = match prop {
-        "C01" => &["caller_empty", "caller_superset", "caller_disjoint", "caller_alias", "caller_alias_described", "caller_alias_described", "owner_sig_missing", "owner_sig_corrupt", "owner_sig_mislabel", "owner_sig_duplicated", "owner_sig_duplicated_apart", "layout_tampered", "layout_command_resplit", "not_a_layout", "extra_sig", "layout_keys_refiled", "layout_keys_refiled", "none"],
+        "C01" => &["caller_empty", "caller_unusable_key", "caller_unusable_key", "caller_superset", "caller_disjoint", "caller_alias", "caller_alias_described", "caller_alias_described", "owner_sig_missing", "owner_sig_corrupt", "owner_sig_mislabel", "owner_sig_duplicated", "owner_sig_duplicated_apart", "layout_tampered", "layout_command_resplit", "not_a_layout", "extra_sig", "layout_keys_refiled", "layout_keys_refiled", "none"],
         "C06" => &["expired_1s", "expired_long", "expired_centuries", "expires_now", "expires_plus1", "expires_far_future", "offset_notation", "offset_expired", "sub_expired", "sub_expired_surplus", "sub_expired_surplus", "none"],
-        "C02" => &["link_removed", "link_wrong_signer", "link_mislabel", "link_tampered", "link_corrupt", "link_unauthorized", "key_not_in_table", "verifier_key_as_functionary", "verifier_key_as_functionary", "link_garbage", "link_misfiled", "link_cosigned_forgery", "cosigned_next_to_differing", "threshold_zero_nolinks", "threshold_zero_norules", "threshold_zero_norules", "threshold_zero_onelink", "threshold_raised", "link_wrong_type", "ghost_authorized_prefix", "ghost_authorized_prefix", "twin_unauthorized", "twin_unauthorized", "duplicate_step_unmet", "duplicate_step_unmet", "none"],
+        "C02" => &["step_without_functionaries", "step_without_functionaries", "link_removed", "link_wrong_signer", "link_mislabel", "link_tampered", "link_corrupt", "link_unauthorized", "key_not_in_table", "verifier_key_as_functionary", "verifier_key_as_functionary", "link_garbage", "link_misfiled", "link_cosigned_forgery", "cosigned_next_to_differing", "threshold_zero_nolinks", "threshold_zero_norules", "threshold_zero_norules", "threshold_zero_onelink", "threshold_raised", "link_wrong_type", "ghost_authorized_prefix", "ghost_authorized_prefix", "twin_unauthorized", "twin_unauthorized", "duplicate_step_unmet", "duplicate_step_unmet", "none"],
         "C07" => &["disagree_product_digest", "disagree_material_path", "disagree_extra_entry", "disagree_t1", "agree_extra_differs", "cosigned_next_to_differing", "disagree_path_spelling", "disagree_alias_entry", "disagree_algorithm_set", "disagree_algorithm_set", "disagree_empty_entry", "disagree_moved_across", "disagree_moved_across", "disagree_missing_entry", "disagree_missing_entry", "none"],
         "C13" => &["differing_links_t1", "differing_links_t1_rules", "none", "nested_namesake", "nested_namesake", "nested_namesake", "link_removed", "disagree_product_digest", "disagree_extra_entry", "cosigned_next_to_differing", "cosigned_next_to_differing", "digest_partial_agreement", "digest_partial_agreement", "sub_missing_link", "sub_rule", "sub_expired"],
         "C08" => &["insp_exit", "insp_notfound", "insp_rule", "insp_rule_named_like_step", "pre_expired", "pre_badsig", "pre_link_removed", "pre_rule", "pre_disagree", "sub_expired", "sub_expired_surplus", "sub_expired_surplus", "sub_insp_exit_surplus", "sub_insp_exit_surplus", "sub_rule_surplus", "sub_tampered", "none"],
@@ -102,6 +102,15 @@ pub(crate) fn inject_kind(prop: &str, kind: &str, s: &mut Scenario, r: &mut Rng,
             s.block.sigs.truncate(1);
             s.block.dup_first_sig_as = Some(format!("{:064x}", 0xa11a5u64 + 1));
             Some(("C01", "one key is supplied twice, the second time read from a description with another keyid, and its signature is listed under both ids".into(), true))
+        }
+        "caller_unusable_key" => {
+            // next to the genuine owner key(s) the caller supplies a key that cannot verify anything (its scheme
+            // is unknown to the library); the layout lists an entry under that key's id - which is no signature
+            // of that key, so not every supplied key has signed
+            let p = crate::e2e::unusable_key(pool)?;
+            s.caller_unusable = true;
+            s.block.dup_first_sig_as = Some(serde_json::to_value(p.key_id()).ok()?.as_str()?.to_string());
+            Some(("C01", "a supplied trusted key (one that cannot verify anything) has no valid signature on the layout, only an entry under its id".into(), true))
         }
         "owner_sig_missing" => {
             s.block.sigs.remove(0);
@@ -396,6 +405,19 @@ pub(crate) fn inject_kind(prop: &str, kind: &str, s: &mut Scenario, r: &mut Rng,
                 }
             }
             Some((if kind.starts_with("pre_") { "C08" } else { "C02" }, format!("{} (step {})", desc, l.steps[si].name), true))
+        }
+        "step_without_functionaries" => {
+            // a step that authorizes nobody (an empty `pubkeys` list): the links lying there for it, validly
+            // signed by keys the layout defines, are evidence of functionaries trusted for other steps at most
+            let l = layout_mut(&mut s.block)?;
+            let si = r.below(l.steps.len());
+            if l.steps[si].threshold == 0 {
+                return None;
+            }
+            l.steps[si].pubkeys.clear();
+            l.steps[si].ghost_keys.clear();
+            let name = l.steps[si].name.clone();
+            Some(("C02", format!("a step authorizes no key at all; its links are signed by keys of the layout's table (step {})", name), true))
         }
         "link_cosigned_forgery" => {
             // threshold 2, functionaries A and B: A's file carries a bogus entry under A's id plus a
@@ -1160,6 +1182,7 @@ pub fn run(cfg: &Cfg, prop: &str) {
         sink.op(&out.op, &out.answer, true);
         let replay = out.op.clone();
         sink.oracle(!out.panicked, "verification panicked", &replay);
+        sink.oracle(!out.hung, "verification did not come back within 60 seconds", &replay);
         // ---- the property itself, from constructed ground truth
         for f in &fatal {
             if f.0 == prop || (prop == "C08" && f.0 == "C08") {
@@ -1195,13 +1218,14 @@ pub fn run(cfg: &Cfg, prop: &str) {
         //      out of it, it is the directory the operating system says it is - for the layout's own evidence
         //      and for the sub-directories of delegated steps alike
         if (prop == "C15" && i % 2 == 0) || i % 10 == 0 {
-            *crate::e2e::SPELL_LINK_DIR.lock().unwrap() = true;
+            let how = 1 + (i / 2 % 6) as u8;
+            *crate::e2e::SPELL_LINK_DIR.lock().unwrap() = how;
             let sp = crate::e2e::run(&pool, &s);
-            *crate::e2e::SPELL_LINK_DIR.lock().unwrap() = false;
+            *crate::e2e::SPELL_LINK_DIR.lock().unwrap() = 0;
             if prop == "C15" {
-                sink.oracle(sp.answer == out.answer, "the outcome depends on how the path of the link directory is spelled (through a symbolic link and `..`)", &replay);
+                sink.oracle(sp.answer == out.answer, &format!("the outcome depends on how the path of the link directory is spelled ({})", ["", "through a symbolic link and `..`", "relative: links", "relative: ./links/", "`.` from inside it", "the empty text from inside it", "with a trailing separator"][how as usize]), &replay);
             }
-            sink.stat(if sp.answer == out.answer { "link-dir-spelling/same" } else { "link-dir-spelling/DIFFERENT" });
+            sink.stat(&format!("link-dir-spelling-{}/{}", how, if sp.answer == out.answer { "same" } else { "DIFFERENT" }));
         }
         // ---- the order in which a directory lists its entries does not matter: the same link directory made
         //      on a file system that lists by age (tmpfs), entries created in one order and in the opposite one
@@ -1246,6 +1270,54 @@ pub fn run(cfg: &Cfg, prop: &str) {
         }
     }
     *crate::e2e::PROCESS_TZ.lock().unwrap() = None;
+    // ---- the moment of verification is the moment of the call - read from the system clock, with no clock
+    //      pinned: a layout verified (rightly) before it expires, the same process three seconds later when it
+    //      has expired - under the requested names a top-level call and a delegation use
+    if prop == "C06" || prop == "C08" {
+        *crate::e2e::REAL_CLOCK.lock().unwrap() = true;
+        for name in [None, Some("final".to_string())] {
+            // (a scenario that verifies under a pinned clock: some generated ones are meant not to)
+            let mut found = None;
+            for _ in 0..12 {
+                let mut g = Gen { r: &mut r, pool: &pool, insp_counter, force_delegate: false, multi_party: false, co_delegate: false, now: Utc::now(), reuse_keys: vec![], inner_insp_always: false };
+                let cand = g.valid(0, prop == "C08");
+                insp_counter = g.insp_counter;
+                *crate::e2e::REAL_CLOCK.lock().unwrap() = false;
+                let pinned = crate::e2e::run(&pool, &cand);
+                *crate::e2e::REAL_CLOCK.lock().unwrap() = true;
+                if pinned.ok {
+                    found = Some(cand);
+                    break;
+                }
+            }
+            let mut s = match found {
+                Some(s) => s,
+                None => continue,
+            };
+            s.name = name.clone();
+            // (the generator dates everything from `g.now`; `valid` draws another moment: date the layout anew)
+            let soon = Utc::now() + Duration::seconds(2);
+            if let SMeta::Layout(l) = &mut s.block.meta {
+                l.expires = Utc::now() + Duration::days(30);
+            }
+            s.now = Utc::now();
+            let first = crate::e2e::run(&pool, &s);
+            sink.stat(if first.ok { "real-clock/unexpired-ok" } else { "real-clock/unexpired-ERR" });
+            sink.oracle(first.ok, "a layout that expires in thirty days was refused (system clock)", &first.op);
+            if let SMeta::Layout(l) = &mut s.block.meta {
+                l.expires = soon;
+            }
+            std::thread::sleep(std::time::Duration::from_millis(3200));
+            s.now = Utc::now();
+            let late = crate::e2e::run(&pool, &s);
+            sink.stat(if late.ok { "real-clock/expired-ACCEPTED" } else { "real-clock/expired-err" });
+            sink.oracle(!late.ok, "a layout that had expired by the time of the call was accepted (system clock; an earlier verification in the same process took place before it expired)", &late.op);
+            if prop == "C08" {
+                sink.oracle(late.events.is_empty(), "an inspection of a layout that had expired by the time of the call was run (system clock)", &late.op);
+            }
+        }
+        *crate::e2e::REAL_CLOCK.lock().unwrap() = false;
+    }
     if prop == "C06" {
         // how an expiry text becomes an instant: chrono's reader and the layout reader against Model/Time.lean
         crate::timegen::run_time_cases(&mut sink, &mut r, if cfg.thorough { 20000 } else { 1500 });
